@@ -1021,6 +1021,13 @@ def b_all_any(kind):
     def f(eng, st, node, spec=False, old=None):
         if len(node.args) == 1 and isinstance(node.args[0], ast.GeneratorExp):
             return quantifier(eng, st, node.args[0], kind, old, spec)
+        if len(node.args) == 1:
+            v = eng.ev(node.args[0], st, spec, old)
+            if isinstance(v, Val) and isinstance(v.ty, TList):
+                i = z3.Int(fresh_name('aa'))
+                body = ops.truthy(Val(v.ty.elem, ops.list_arr(v)[i]))
+                rng = z3.And(0 <= i, i < ops.list_len(v))
+                return Val(TBool, z3.ForAll([i], z3.Implies(rng, body)) if kind == 'all' else z3.Exists([i], z3.And(rng, body)))
         raise Unsupported('%s over non-generator' % kind)
     return f
 
@@ -1431,7 +1438,9 @@ def m_defaultdict(eng, st, node):
 def m_np_array(eng, st, node):
     eng.assumptions.add('numpy arrays of numbers are treated as lists of mathematical reals (elementwise arithmetic)')
     v = eng.ev(node.args[0], st)
-    return v
+    out = Val(v.ty, v.t)
+    out.np = True
+    return out
 
 
 def m_random_choice(eng, st, node, allow_raise=False):
